@@ -64,6 +64,23 @@ def standin_algebra(tier, seed):
         # in-place names are specified through the immutable product they implement (pinned upstream): left -> a*b, right -> b*a
         if not np.allclose(_mat(m, qs), _mat(a * b, qs), atol=1e-9) or not np.allclose(_mat(m2, qs), _mat(b * a, qs), atol=1e-9):
             bad("MutablePauliString in-place multiply differs from the immutable product", a=a, b=b)
+    # Pauli-like OPERATIONS as factors (powers of X/Y/Z with integer exponents and global shifts, rotations by pi, parity gates): the
+    # product is the matrix product, phase included
+    likes = [cirq.XPowGate(exponent=e, global_shift=sh)(qs[0]) for e in (1, -1, 3, 2, 0) for sh in (0, 0.5, -0.5, 0.25)]
+    likes += [cirq.YPowGate(exponent=e, global_shift=sh)(qs[1]) for e in (1, 3, 2) for sh in (0, 0.5)] + [cirq.ZPowGate(exponent=e, global_shift=sh)(qs[0]) for e in (1, -1, 2) for sh in (0, -0.5, 1)]
+    likes += [cirq.rx(np.pi)(qs[0]), cirq.ry(-np.pi)(qs[1]), cirq.rz(np.pi)(qs[0]), cirq.XXPowGate(exponent=1, global_shift=0.5)(*qs), cirq.ZZ(*qs), cirq.YYPowGate(exponent=3, global_shift=-0.5)(*qs)]
+    for op in likes:
+        mo = cirq.Circuit(op).unitary(qubit_order=qs, qubits_that_should_be_present=qs)
+        for a in S[::5]:
+            cases += 1
+            ma = _mat(a, qs)
+            for label, f, want in (("a * op", lambda: a * op, ma @ mo), ("op * a", lambda: op * a, mo @ ma)):
+                try:
+                    got = f()
+                except TypeError:
+                    continue
+                if not np.allclose(_mat(got, qs), want, atol=1e-9):
+                    bad(f"{label} with a Pauli-like operation differs from the matrix product (phase included)", a=a, op=op)
     # scalar multiples, negation, powers
     for a in S:
         ma = _mat(a, qs)
